@@ -831,10 +831,14 @@ public
     if (Directional && !InOut) {
       src->erase(dst.base());
     } else {
-      dst->first()->acquire(mflag);
-      // erase the incoming/symmetric entry that shares this edge's data
-      dst->first()->erase(src, Directional ? true : false, dst->second());
+      gNode* other = dst->first();
+      other->acquire(mflag);
+      auto cell = dst->second();
+      // Erase src's own entry first: for a self-loop both entries live in the
+      // same vector and erasing the reverse entry first invalidates dst.
       src->erase(dst.base());
+      // erase the incoming/symmetric entry that shares this edge's data
+      other->erase(src, Directional ? true : false, cell);
     }
   }
 
